@@ -29,7 +29,7 @@ import schedula as sh
 from ..ranges import Ranges, _intersect
 from ..errors import InvalidRangeName
 from ..cell import Cell, RangesAssembler, Ref, CellWrapper, InvRangesAssembler
-from ..tokens.operand import XlError, _re_sheet_id, _re_build_id
+from ..tokens.operand import XlError, _re_sheet_id, _re_build_id, _re_ref
 from ..functions.text import HexValue
 from ..functions import COMPILING
 
@@ -308,6 +308,21 @@ class ExcelModel:
             self.cells[cell.output] = cell
             return cell
 
+    def _load_references(self, n_id):
+        m = _re_ref.match(n_id)
+        m = m and m.groupdict() or {}
+        if m.get('filename'):
+            book = _encode_path(osp.join(
+                _decode_path(m.get('directory') or ''),
+                _decode_path(m['filename'])
+            ))
+            try:
+                self.add_book(book)
+            except Exception as ex:  # Missing excel file.
+                log.warning('Error in loading `{}`:\n{}'.format(n_id, ex))
+                self.books.pop(book.upper(), None)
+        return n_id in self.references
+
     def complete(self, stack=None):
         done = set(self.cells)
         if stack is None:
@@ -326,6 +341,9 @@ class ExcelModel:
             try:
                 rng = Ranges.get_range(n_id, raise_anchor=False)
             except InvalidRangeName:  # Missing Reference.
+                if self._load_references(n_id):  # Name of another workbook.
+                    stack.extend(self.cells[n_id].inputs or ())
+                    continue
                 log.warning('Missing Reference `{}`!'.format(n_id))
                 Ref(n_id, '=#REF!').compile().add(self.dsp)
                 continue
@@ -515,6 +533,16 @@ class ExcelModel:
             if k not in refs:
                 nodes.update(cell.compile(references=refs).add(self.dsp))
         self.cells.update(cells)
+        pred, get_range = self.dsp.dmap.pred, Ranges.get_range
+        for k in sorted(nodes, key=str):  # Names that nobody defines.
+            if not (isinstance(k, str) and k in pred) or pred[k] or \
+                    k in self.cells or k in self.dsp.default_values:
+                continue
+            try:
+                get_range(k, raise_anchor=False)
+            except InvalidRangeName:
+                if ref and _re_ref.match(k):
+                    Ref(k, '=#REF!').compile().add(self.dsp)
         if assemble:
             self.assemble()
         self.inverse_references()
